@@ -45,12 +45,10 @@ SPARE10 = r'let \(\w+, \w+\) = take_bits::<_, u8, _, _>\(10u8\)\((\w+)\)\?;'
 def apply_base_station_report(fc):
     std_message(fc, 't4', 'BaseStationReport', base_station_fields(4), {'C14': ['fld(o, 0, 6) == 4 ==> (r is Ok <==> n >= 168)']})
     # a 10-bit spare read into a u8: nom's first left shift must stay below 8, which depends on the bit offset (2 here)
-    fc.insert_re('parse_base', SPARE10, r'proof { at_unfold(\1); }\n        ')
 
 
 def apply_utc_date_response(fc):
     std_message(fc, 't11', 'UtcDateResponse', base_station_fields(11), {'C14': ['fld(o, 0, 6) == 11 ==> (r is Ok <==> n >= 168)']})
-    fc.insert_re('parse_base', SPARE10, r'proof { at_unfold(\1); }\n        ')
 
 
 # ---------------------------------------------------------------------------------------------- 5
@@ -96,7 +94,6 @@ T8 = HDR + [
 
 def apply_binary_addressed(fc):
     std_message(fc, 't6', 'BinaryAddressedMessage', T6, {'C14': ['r is Ok <==> n >= 88']}, lifetime=True, signed=())
-    fc.insert_re('parse_base', r'#\[cfg\(any\(feature = "std", feature = "alloc"\)\)\]\s*let \w+ = (\w+)\.0\.into\(\);', r'proof { at_unfold(\1); }\n        ')
 
 
 def apply_binary_broadcast(fc):
@@ -105,7 +102,6 @@ def apply_binary_broadcast(fc):
 pub open spec fn carrier_sense_spec(d: u8) -> CarrierSense { if d == 0 { CarrierSense::Sotdma } else { CarrierSense::CarrierSense } }
 pub open spec fn assigned_spec_bbm(d: u8) -> AssignedMode { if d == 0 { AssignedMode::Autonomous } else { AssignedMode::Assigned } }
 ''')
-    fc.insert_re('parse_base', r'#\[cfg\(any\(feature = "std", feature = "alloc"\)\)\]\s*let \w+ = (\w+)\.0\.into\(\);', r'proof { at_unfold(\1); }\n        ')
     fc.contract('parse', within='impl CarrierSense', requires=['val <= 1'], ensures=['r == carrier_sense_spec(val)'], tags=['C12'])
     fc.contract('parse', within='impl AssignedMode', requires=['val <= 1'], ensures=['r == assigned_spec_bbm(val)'], tags=['C12'])
 
@@ -134,7 +130,6 @@ pub open spec fn dcd_post(data: (&[u8], usize), r: nom::IResult<(&[u8], usize), 
 '''
     std_message(fc, 't17', 'DgnssBroadcastBinaryMessage', T17, {'C14': ['r is Ok <==> n >= 120']}, signed=(18, 17), more_spec=more)
     fc.contract('parse', within='impl DifferentialCorrectionData', requires=['cur_ok(data)'], ensures=['dcd_post(data, r)'], tags=['C15', 'C04'])
-    fc.insert_re('parse', r'#\[cfg\(any\(feature = "std", feature = "alloc"\)\)\]\s*let \w+ = (\w+)\.0\.into\(\);', r'proof { at_unfold(\1); }\n        ', within='impl DifferentialCorrectionData')
     fc.contract('parse_longitude_min_10', ensures=['lon10_rel(data, r)'], tags=['C10', 'C11'])
     fc.body_prefix('parse_longitude_min_10', F32)
     fc.contract('parse_latitude_min_10', ensures=['lat10_rel(data, r)'], tags=['C10', 'C11'])
